@@ -177,6 +177,16 @@ NiShape* buildShape(NifFile& nif, const json& s, Ctx& ctx) {
 			nif.SetTextureSlot(shape, tn, 1);
 		}
 	}
+	if (jbool(s, "two_uv_sets", false) && hdr.GetVersion().Stream() < 34) {
+		// Oblivion-era files keep the number of UV sets in the low bits of the geometry data flags; two sets are common there
+		if (auto gd = hdr.GetBlock<NiGeometryData>(shape->DataRef()))
+			if (gd->uvSets.size() == 1 && gd->uvSets[0].size() == gd->GetNumVertices()) {
+				gd->uvSets.push_back(gd->uvSets[0]);
+				for (auto& uv : gd->uvSets[1]) { uv.u = 1.0f - uv.u; uv.v += 0.25f; }
+				gd->dataFlags = uint16_t((gd->dataFlags & ~0x3F) | 2);
+				ctx.probe("built_two_uv_sets");
+			}
+	}
 	if (jbool(s, "alpha", false)) nif.AssignAlphaProperty(shape, std::make_unique<NiAlphaProperty>());
 	if (jbool(s, "legacy_texturing", false) && hdr.GetVersion().Stream() <= 34) {
 		// Oblivion / Fallout 3 style texturing: NiTexturingProperty -> NiSourceTexture in the shape's property list, with file
@@ -190,6 +200,14 @@ NiShape* buildShape(NifFile& nif, const json& s, Ctx& ctx) {
 			uint32_t sid = hdr.AddBlock(std::move(st));
 			if (k == 0) { tp->hasBaseTex = true; tp->baseTex.sourceRef.index = sid; }
 			else { tp->hasGlowTex = true; tp->glowTex.sourceRef.index = sid; }
+		}
+		if (r.chance(0.4)) {
+			// a decal in the first decal slot (texture count 7: the standard Oblivion layout)
+			auto st = std::make_unique<NiSourceTexture>();
+			st->fileName.get() = "textures\\decals\\blood.dds";
+			tp->hasDecalTex0 = true;
+			tp->decalTex0.sourceRef.index = hdr.AddBlock(std::move(st));
+			ctx.probe("built_decal_texture");
 		}
 		uint32_t tid = hdr.AddBlock(std::move(tp));
 		shape->propertyRefs.AddBlockRef(tid);
